@@ -85,14 +85,74 @@ def run(ctx):
             ctx.violation(fails[0], src=c['src'], opts=c['opts'], all=fails[:3], case=semrun.pack(c))
         if len(ctx.samples) < 3:
             ctx.sample({'src': c['src'][:300], 'out': (r.get('txt') or '')[:200]})
-    corr.t2t(ctx, cases, results, proj=('outcome', 'toks', 'text'), limit=ctx.scale(900, 20000))
+    rc = replaced_cases(rng)
+    rres = ctx.pmap(t2t.run_case, rc)
+    for c, r in zip(rc, rres):
+        ctx.case(c['src']); ctx.count('replaced_' + c['what'][0])
+        f = judge_replaced(c, r)
+        if f:
+            ctx.violation(f[0], src=c['src'], opts=c['opts'], replaced={'seq': c['seq'], 'at': c['at'], 'what': list(c['what'])})
+    corr.t2t(ctx, cases + rc, results + rres, proj=('outcome', 'toks', 'text'), limit=ctx.scale(900, 20000) + len(rc))
     corr.leaf_corr(ctx, [dict(c, cap_lines=0) for c in cases], results, want=('scan', 'txtpos'), limit=ctx.scale(300, 3000))
+
+REPLACED_SPECIALS = ['--', '---', '``', "''", '~', '\\,', '\\%', '\\&', '\\$', '\\#', '\\_', '\\{', '\\}']
+
+def replaced_cases(rng):
+    """a replaced sequence maps to the first character of the sequence it replaces: every documented special
+    sequence, accent macros with a letter, and every "-shorthand of the German table, between two words, glued to
+    them, in a group, as a macro argument, in a footnote and a heading, at the start and at the very end of the text"""
+    import gen
+    m = impl.load()
+    out = []
+    def frames(seq, lang, what):
+        a = 'Q' + ''.join(rng.choice('abcdefghij') for _ in range(3))
+        b = 'Q' + ''.join(rng.choice('klmnopqrs') for _ in range(3))
+        for pre, post in ((a + ' ', ' ' + b), (a, b), ('', b), (a + ' ', ''), (a + ' {', '} ' + b), (a + ' \\textbf{', '} ' + b),
+                          (a + '\n', '\n' + b), ('\\footnote{' + a, b + '}'), ('\\section{' + a + ' ', ' ' + b + '}')):
+            out.append({'src': pre + seq + post, 'opts': {'lang': lang, 'pack': '*'}, 'multi': False, 'words': [],
+                        'kind': 'replaced', 'seq': seq, 'at': len(pre), 'what': what})
+    for lang in ('de', 'de-AT'):
+        for k, v in dict(m.parameters.Parameters(lang).lang_context.short_macros).items():
+            frames(k, lang, ('short', v))
+    sp = dict(m.parameters.Parameters('en').special_tokens)
+    for k in REPLACED_SPECIALS:
+        if k in sp:
+            frames(k, rng.choice(['en', 'de']), ('special', sp[k]))
+    for name, letter in rng.sample(gen.VALID_ACCENTS, min(30, len(gen.VALID_ACCENTS))):
+        frames(name + '{' + letter + '}', rng.choice(['en', 'de']), ('accent', None))
+    return out
+
+def judge_replaced(case, res):
+    """the characters the sequence turns into all carry the offset of its first character"""
+    if res['outcome'] != 'ok':
+        return ['outcome %s for %r' % (res['outcome'], case['src'])]
+    txt, pos, at, seq = res['txt'], res['pos'], case['at'], case['seq']
+    kind, val = case['what']
+    if len(txt) != len(pos):
+        return ['lengths differ']
+    if kind == 'accent':
+        idx = [i for i, p in enumerate(pos) if at + 1 <= p <= at + len(seq)]
+        if not idx or pos[idx[0]] != at + 1:
+            return ['accent sequence %r at offset %d: result %r maps to %r' % (seq, at + 1, ''.join(txt[i] for i in idx), [pos[i] for i in idx])]
+        return []
+    if val.strip() == '':
+        return []             # a blank / empty replacement may be merged with neighbouring white space
+    hits = [i for i in range(len(txt) - len(val) + 1)
+            if txt.startswith(val, i) and all(pos[i + d] == at + 1 for d in range(len(val)))]
+    if not hits:
+        return ['sequence %r at offset %d (-> %r): no occurrence of the replacement maps to the first character of the sequence; text %r positions %r'
+                % (seq, at + 1, val, txt, pos)]
+    return []
 
 def accent_verb_class(src):
     import re
     return re.search(r'\\[\'`^"~=.cvuHrkdb]\s*\{?\s*\\verb', src) is not None
 
 def judge_witness(w):
+    if w.get('replaced'):
+        c = {'src': w['src'], 'opts': w.get('opts') or {}, 'multi': False, 'words': [], 'seq': w['replaced']['seq'],
+             'at': w['replaced']['at'], 'what': tuple(w['replaced']['what'])}
+        return judge_replaced(c, t2t.run_case(c))
     c = {'src': w['src'], 'opts': w.get('opts') or {}, 'multi': False, 'words': []}
     return judge(c, t2t.run_case(c), None)
 
@@ -105,5 +165,8 @@ def replay(data):
         print('\n'.join(f) if f else 'ok')
         return not f
     f = judge_witness(data['violation'])
+    if data['violation'].get('replaced'):
+        print('\n'.join(f) if f else 'ok')
+        return not f
     print('\n'.join(f) if f else 'ok (token-level oracle; the word-level oracle needs the AST)')
     return not f
